@@ -63,11 +63,8 @@ def run(ctx):
                 "sequences vs the model run; non-trivial = distinct (class, kind, state) or distinct call list with at least one wrap")
     # 1. regenerate
     try:
-        gen_counter.gen_counter()
-        sites = gen_counter.gen_sites()
-        ctx.oblige("gen:counter_translator", True)
-    except Exception as e:  # fail-closed extractor
-        ctx.oblige("gen:counter_translator", False, repr(e))
+        sites = gen_counter.call_sites()
+    except Exception as e:  # fail-closed extractor (also reported by gen:seq_sites)
         sites = []
     # 2. prove
     ctx.prove()
